@@ -39,6 +39,8 @@ def generate(rng, tier, idx):
         d = {"op": "dump", "path": path}
         if rng.random() < 0.5:
             d["main_variant"] = pick(rng, keys)
+        if rng.random() < 0.15:
+            d["to"] = "handle"
         ops.append(d)
         ops.append({"op": "restart", "path": path, "via": pick(rng, ["path", "handle", "loads"]), "offset": rng.randint(0, 1500)})
         for _ in range(rng.randint(0, 3)):
